@@ -1,6 +1,6 @@
 (* C06 - Captured stacks contain the live stack.  Property theorems only (region selection). *)
 From Coq Require Import List NArith Arith.
-From MDW Require Import StackInfo StackInfoProofs StackInfoStrict Shorten.
+From MDW Require Import StackInfo StackInfoProofs StackInfoStrict Shorten GenTypes Generated ThreadList ThreadListProofs.
 Import ListNotations.
 Local Open Scope N_scope.
 
@@ -55,3 +55,17 @@ Print Assumptions C06_refuted_limit.
 Theorem C06_refuted_top : get_stack_info Debug FUEL [] (2 ^ 64 - 8) = Panic /\ get_stack_info Release FUEL [] (2 ^ 64 - 8) = Hang.
 Proof. split; [exact top_of_space_debug | exact top_of_space_release]. Qed.
 Print Assumptions C06_refuted_top.
+
+(* With a size limit only threads at list position 20 or later, and never the thread described by a
+   crash context, are shortened (constants 20 / 2048 / 8 KiB / 64 KiB come from Generated.v, i.e. from
+   the current source) ... *)
+Theorem C06_not_shortened : forall limit n pos idx crash,
+  limit = None \/ idx < 20 \/ crash = true -> shortened limit n pos idx crash = false.
+Proof. exact not_shortened. Qed.
+Print Assumptions C06_not_shortened.
+(* ... and a shortened stack still contains the stack pointer, starts no higher, is at most 2 KiB. *)
+Theorem C06_thread_region_shortened : forall maps sp v len,
+  get_stack_info Strict FUEL maps sp = Ok (v, len) -> v <= sp -> sp < v + len ->
+  exists s l, thread_region maps true sp = Some (s, l) /\ s <= sp /\ sp < s + l /\ (2048 < len -> l <= 2048) /\ v <= s /\ s + l <= v + len.
+Proof. exact thread_region_shortened. Qed.
+Print Assumptions C06_thread_region_shortened.
